@@ -133,4 +133,97 @@ theorem zkpok_has_no_opening (cs : Suite) (msgs : List Int) (C : Commitment) (Ct
   obtain ⟨hl, hall⟩ := zkMiLoop_no_opening cs pk bases msgs U h3
   exact ⟨rfl, hl, hall⟩
 
+/-! ### 6. the value alone does not confirm a guess -/
+
+/-- the commitment value `g^x · h^r mod N` as the code computes it (`commit_with_commitment_pk` on one
+attribute; `none` = a `pow_mod` on a non-invertible base with a negative exponent, a Rust panic). -/
+def recommit (N g h x r : Int) : Option Int :=
+  match powMod g x N, powMod h r N with
+  | some a, some b => some (tmod (a * b) N)
+  | _, _ => none
+
+theorem recommit_unit (hA : ArithOK) {N g h : Int} (hN : 1 < N) (hg : IsU N g) (hh : IsU N h) (x r : Int) :
+    recommit N g h x r = some (can N (x • rp N g + r • rp N h)) := by
+  unfold recommit
+  rw [powMod_unit hA hN hg, powMod_unit hA hN hh]
+  simp only [Option.some.injEq]
+  rw [tmod_good hN (good_mul (good_can hN _) (good_can hN _)),
+    rp_mul_good (good_can hN _) (good_can hN _), rp_can hN, rp_can hN]
+
+/-- `commit_with_commitment_pk(messages, cpk, Some([i]))` computes `recommit N g_i h m_i r`. -/
+theorem commitWithCpk_single (cs : Suite) (msgs : List Int) (cpk : CommitmentPK) (i : Nat)
+    (C : Commitment) (t t' : List Draw) (h : commitWithCpk cs msgs cpk (some [i]) t = .ok (C, t')) :
+    ∃ g m, cpk.gBases[i]? = some g ∧ msgs[i]? = some m ∧
+      recommit cpk.N g cpk.h m C.randomness = some C.value := by
+  unfold commitWithCpk at h
+  bstep h with r t1 h1
+  bstep h with cx t2 h2
+  bstep h with hr t3 h3
+  obtain ⟨rfl, -⟩ := ok_inj h
+  simp only [Option.getD_some] at h2
+  unfold prodPowIdx at h2
+  bstep h2 with a t4 h4
+  bstep h2 with m t5 h5
+  bstep h2 with x t6 h6
+  unfold prodPowIdx at h2
+  obtain ⟨rfl, -⟩ := ok_inj h2
+  obtain ⟨h4, -⟩ := idx_ok_iff.mp h4
+  obtain ⟨h5, -⟩ := idx_ok_iff.mp h5
+  obtain ⟨h6, -⟩ := pw_ok_iff.mp h6
+  obtain ⟨h3, -⟩ := pw_ok_iff.mp h3
+  refine ⟨a, m, h4, h5, ?_⟩
+  unfold recommit
+  simp only [h6, h3, one_mul]
+
+/-- **Hiding.** For invertible `h` and `g = h^f mod N` (how `CL03CommitmentPublicKey::generate` makes
+every `g_i`), any commitment value `g^x h^r` is also `g^{x'} h^{r'}` for every other message `x'`,
+with a non-negative `r' ≡ r + f·(x − x')` modulo `φ(N)`: the value is consistent with every guess,
+so a dictionary attack on the value alone fails. (Hiding is perfect up to the range of `r`: the
+`r'` exhibited here is not bounded by `2^ln`.) -/
+theorem commit_hiding_cl (hA : ArithOK) (N g h f : Int) (hN : 1 < N) (hh : Int.gcd h N = 1)
+    (hgf : powMod h f N = some g) (x r x' : Int) :
+    ∃ r' : Int, 0 ≤ r' ∧ (∃ k : Int, r' = r + f * (x - x') + k * (Nat.totient N.toNat)) ∧
+      ∃ v, recommit N g h x r = some v ∧ recommit N g h x' r' = some v := by
+  have hhU : IsU N h := isU_of_gcd (by omega) hh
+  rw [powMod_unit hA hN hhU] at hgf
+  obtain rfl := Option.some.inj hgf
+  have hgU : IsU N (can N (f • rp N h)) := isU_can hN _
+  have hφ : 0 < Nat.totient N.toNat := Nat.totient_pos.mpr (by omega)
+  set r0 := r + f * (x - x') with hr0
+  have hle : (r0.natAbs : Int) ≤ r0.natAbs * (Nat.totient N.toNat : Int) :=
+    le_mul_of_one_le_right (by omega) (by omega)
+  refine ⟨r0 + r0.natAbs * (Nat.totient N.toNat : Int), by omega, ⟨r0.natAbs, rfl⟩,
+    can N (x • rp N (can N (f • rp N h)) + r • rp N h), recommit_unit hA hN hgU hhU x r, ?_⟩
+  rw [recommit_unit hA hN hgU hhU, rp_can hN]
+  congr 2
+  have hz : ((Nat.totient N.toNat : Nat) : Int) • rp N h = 0 := by
+    rw [natCast_zsmul]; exact totient_nsmul _
+  have : (r0 + (r0.natAbs : Int) * (Nat.totient N.toNat : Int)) • rp N h =
+      r0 • rp N h + (r0.natAbs : Int) • (((Nat.totient N.toNat : Nat) : Int) • rp N h) := by module
+  rw [this, hz, hr0]
+  module
+
+/-! ### 7. an opening would confirm a guess -/
+
+/-- **The defect that was fixed.** If the proof carried `(value, randomness)` with
+`value = g^m h^randomness`, anyone can test a guess `m'` by recomputing `g^{m'} h^{randomness}`:
+the test passes for `m' = m`, and for `m' ≠ m` it passes only if `g^{|m − m'|} ≡ 1 (mod N)`
+(`OrderRelation` on `g`). So comparing the recomputed value is a sound and complete test of a guess;
+it is the check the harness runs against the serialised proofs. -/
+theorem opening_would_confirm (hA : ArithOK) (N g h : Int) (hN : 1 < N) (hg : Int.gcd g N = 1)
+    (hh : Int.gcd h N = 1) (m r value : Int) (hv : recommit N g h m r = some value) :
+    recommit N g h m r = some value ∧
+      ∀ m', recommit N g h m' r = some value → m' = m ∨ OrderRelation N g := by
+  refine ⟨hv, fun m' h' => ?_⟩
+  by_cases hm : m' = m
+  · exact Or.inl hm
+  right
+  have hgU : IsU N g := isU_of_gcd (by omega) hg
+  have hhU : IsU N h := isU_of_gcd (by omega) hh
+  rw [recommit_unit hA hN hgU hhU] at hv h'
+  have := can_inj hN (Option.some.inj (hv.trans h'.symm))
+  refine orderRelation_of_zsmul hN hgU (k := m - m') (by omega) ?_
+  have h2 : m • rp N g = m' • rp N g := add_right_cancel this
+  rw [sub_smul, h2, sub_self]
+
 end Zk.C17
